@@ -477,6 +477,25 @@ func (p *Program) ruleThreeViews(c *Check) {
 			default:
 				good = len(ret) == 1 && ret[0].Kind == "conv" && ret[0].Args[0].String() == call.String()
 			}
+			if !good && view != "MarshalJSON" && len(ret) == 1 {
+				// delegation to the sibling string view of the same receiver
+				// (String() { return g.JSON() }), itself AppendJSON(nil)
+				sib := "JSON"
+				if view == "JSON" {
+					sib = "String"
+				}
+				if so, _, _ := types.LookupFieldOrMethod(recvT, true, p.Geojson.Types, sib); so != nil {
+					if sf, _ := so.(*types.Func); sf != nil && ret[0].String() == tCall(sf, tRecv()).String() {
+						if ssh, ok := p.shapeOf(sf); ok && len(ssh.Arms) == 1 && len(ssh.Arms[0].Ret) == 1 {
+							r := ssh.Arms[0].Ret[0]
+							// the sibling's receiver type decides which AppendJSON it resolves to
+							sobj, _, _ := types.LookupFieldOrMethod(sf.Type().(*types.Signature).Recv().Type(), true, p.Geojson.Types, "AppendJSON")
+							sapm, _ := sobj.(*types.Func)
+							good = sapm == apm && r.Kind == "conv" && r.Args[0].String() == call.String()
+						}
+					}
+				}
+			}
 			if good {
 				c.OK("E5.views", con, p.declPos(m), "is AppendJSON(nil) of the receiver")
 			} else {
